@@ -179,12 +179,13 @@ class Slice:
             return None
         # the worker died: sanitizer report, signal or watchdog
         self.crashes.append({'flavour': self.fl, 'index': crash_idx, 'rc': rc, 'stderr': err.decode('latin-1')[-4000:]})
-        if crash_idx is None or crash_idx < 0:
+        if crash_idx is None:
             return None
         self.restarts += 1
         if self.restarts > 3:
             return None
-        return crash_idx + 1
+        # (a negative index is a worker's cold-start case: go on with the regular cases, without another cold start)
+        return 1 if crash_idx < 0 else crash_idx + 1
 
 
 def run_batches(prop, tier, seed, budgets, outdir, time_cap):
@@ -399,7 +400,7 @@ def main():
     # crashes (sanitizer reports, signals, watchdog) are violations of the property whose batch they happened in
     crashes.sort(key=lambda c: (c['index'] is None, c['index'] if c['index'] is not None else 0))
     for c in crashes[:6]:
-        if c['index'] is None or c['index'] < 0:
+        if c['index'] is None:
             log('worker died without naming a run: rc=%s\n%s' % (c['rc'], c['stderr'][-1500:]))
             trouble.append('worker died without naming a run')
             continue
